@@ -128,31 +128,33 @@ Definition check_attempt (cfg : config) (st : state) (id : Z) (ob : obs) : Z :=
     end
   end.
 
-Definition check_dump (st' : state) (ob : obs) : Z :=
+(* [wf]: every operation so far was well-formed ([op_okb]); only then is clause 4 promised *)
+Definition check_dump (wf : bool) (st' : state) (ob : obs) : Z :=
   if negb (eq_ids (map fst (o_dump ob)) (map q_id (quotas st'))) then 9
-  else if negb (forallb (fun q => q_taint q || used_le_maxb q (q_used q))
-                        (sync (quotas st') (o_dump ob))) then 4
+  else if wf && negb (forallb (fun q => q_taint q || used_le_maxb q (q_used q))
+                              (sync (quotas st') (o_dump ob))) then 4
   else 0.
 
-Definition check_op (cfg : config) (st : state) (o : op) (ob : obs) : Z :=
+Definition check_op (cfg : config) (wf : bool) (st : state) (o : op) (ob : obs) : Z :=
   let c := match o with OAttempt id => check_attempt cfg st id ob | _ => 0 end in
-  if negb (c =? 0) then c else check_dump (fst (step cfg st o)) ob.
+  if negb (c =? 0) then c else check_dump wf (fst (step cfg st o)) ob.
 
-Fixpoint check (cfg : config) (st : state) (prev : list (Z * (vec * vec)))
+Fixpoint check (cfg : config) (wf : bool) (st : state) (prev : list (Z * (vec * vec)))
          (ops : list op) (os : list obs) : Z :=
   match ops, os with
   | [], [] => 0
   | o :: ops', ob :: os' =>
     let st1 := sync_state st prev in
-    let c := check_op cfg st1 o ob in
+    let wf' := wf && op_okb st1 o in
+    let c := check_op cfg wf' st1 o ob in
     if negb (c =? 0) then c
-    else check cfg (fst (step cfg st1 o)) (o_dump ob) ops' os'
+    else check cfg wf' (fst (step cfg st1 o)) (o_dump ob) ops' os'
   | _, _ => 9
   end.
 
 (* the property decided on an observation of a whole history *)
 Definition prop_code (cfg : config) (ops : list op) (os : list obs) : Z :=
-  check cfg init_state [] ops os.
+  check cfg true init_state [] ops os.
 
 (* ---------- the same, as a Prop over one observed step ---------- *)
 Definition attempt_holds (cfg : config) (st : state) (id : Z) (ob : obs) : Prop :=
@@ -163,6 +165,6 @@ Definition attempt_holds (cfg : config) (st : state) (id : Z) (ob : obs) : Prop 
     /\ (rt_on cfg = true -> forall a, In a (q :: anc) -> quota_okb a = true -> used_le_max a (lim a)).
 Definition dump_holds (st' : state) (ob : obs) : Prop :=
   forall q, In q (sync (quotas st') (o_dump ob)) -> q_taint q = false -> used_le_max q (q_used q).
-Definition step_holds (cfg : config) (st : state) (o : op) (ob : obs) : Prop :=
+Definition step_holds (cfg : config) (wf : bool) (st : state) (o : op) (ob : obs) : Prop :=
   (forall id, o = OAttempt id -> attempt_holds cfg st id ob)
-  /\ dump_holds (fst (step cfg st o)) ob.
+  /\ (wf = true -> dump_holds (fst (step cfg st o)) ob).
